@@ -18,7 +18,7 @@ def GrowingAny (key : Bytes) (b0 : Bytes) (fs : FS) : Prop :=
 returned integrity and the byte count. -/
 def BucketPost (key : Bytes) (o : WriteOpts) (chunks : List Bytes) (b0 : Bytes)
     (r : Res Integrity) (fs' : FS) : Prop :=
-  ∀ sri, r = Except.ok sri → ∃ tm,
+  ∀ sri, r = Except.ok sri → ∃ tm, (∀ t, o.time = some t → tm = t) ∧
     fs'.get (bucketPath cfg cache key) = some (.file (b0 ++ (codec cfg).frame
       (mkRec key { o with sri := some sri, size := some (o.size.getD chunks.flatten.length) } tm)))
 
@@ -159,8 +159,9 @@ theorem writeStream_keyed_wp (fl : Flavour) (key : Bytes) (o : WriteOpts) (chunk
             have e := hr4 sri hsri
             simp only [Option.getD_some] at e
             subst e
-            obtain ⟨tm, hget⟩ := hb4 _ hsri
-            refine ⟨tm, ?_⟩
-            rw [hget, hopts, hwritten]
+            obtain ⟨tm, htm, hget⟩ := hb4 _ hsri
+            refine ⟨tm, ?_, ?_⟩
+            · intro t ht; exact htm t (by rw [hopts]; exact ht)
+            · rw [hget, hopts, hwritten]
 
 end Cacache
